@@ -1007,6 +1007,27 @@ func blockCase(i int, rng *vf.RNG, pool []*poolTx) {
 			if a := judge(m, "nonminimal-"+nm, false, t); a == nil {
 				t.inc("nonminimal_" + nm + "_rejected")
 			}
+			// the length prefix of an ELEMENT of the list (a signer key / a signature), in every wider form
+			if nm != "ConsensusPayload" && v >= 1 {
+				el := int(rng.Intn(int(v)))
+				off := f.from + n
+				okEl := true
+				for k := 0; k < el && okEl; k++ {
+					ev, en, ok := readVar(b, off)
+					okEl = ok
+					off += en + int(ev)
+				}
+				if ev, en, ok := readVar(b, off); okEl && ok && en == 1 {
+					for _, wide := range [][]byte{{0xfd, byte(ev), 0}, {0xfe, byte(ev), 0, 0, 0}, {0xff, byte(ev), 0, 0, 0, 0, 0, 0, 0}} {
+						m := append(append(clone(b[:off]), wide...), b[off+1:]...)
+						r.Eval(fp("nonminimal-element", m))
+						t.inc("nonminimal_element_" + nm)
+						if a := judge(m, "nonminimal-element-"+nm, false, t); a == nil {
+							t.inc("nonminimal_element_" + nm + "_rejected")
+						}
+					}
+				}
+			}
 		}
 	}
 }
